@@ -118,6 +118,33 @@ def crcProposalReview (pv : Nat) : Ty :=
   .struct ([hash256, u8, hash256] ++ (if 1 ≤ pv then [.varBytes maxOpinionData] else [])
     ++ [hash168, .varBytes maxSignatureScript])
 
+/-! further payloads (layouts read off the regenerated token streams, limits checked by the token lemma) -/
+
+/-- CRAssetsRectify, CRCAppropriation, ExchangeVotes, ReturnDepositCoin / ReturnCRDepositCoin: no content -/
+def emptyPayload : Ty := .struct []
+/-- CRCProposalRealWithdraw, DposV2ClaimRewardRealWithdraw: a list of transaction hashes -/
+def hashList : Ty := lst 128 hash256
+def activateProducer : Ty := .struct [.varBytes negativeBigLength, .varBytes signatureLength]
+def crCouncilMemberClaimNode : Ty :=
+  .struct [.varBytes negativeBigLength, hash168, .varBytes maxSignatureScript]
+/-- `ProcessProducer` (CancelProducer): the signature is absent from the Schnorr version (1) on -/
+def processProducer (pv : Nat) : Ty :=
+  .struct ([.varBytes maxMultiSignCode] ++ (if pv < 1 then [.varBytes signatureLength] else []))
+def record : Ty := .struct [.varBytes maxVarString, .varBytes maxPayloadData]
+def recordSponsor : Ty := .struct [.varBytes compressedLen]
+def revertToDPOS : Ty := .struct [u32, u32]
+def revertToPOW : Ty := .struct [u8, u32]
+def sideChainPow : Ty := .struct [hash256, hash256, u32, .varBytes maxPayloadData]
+def updateVersion : Ty := .struct [u32, u32]
+/-- `ReturnVotes` and `DPoSV2ClaimReward`: code and signature only in version 0 -/
+def returnVotes (pv : Nat) : Ty :=
+  .struct ([hash168] ++ (if pv = 0 then [.varBytes maxMultiSignCode] else []) ++ [u64]
+    ++ (if pv = 0 then [.varBytes maxSignatureScript] else []))
+/-- `CRCProposalWithdraw`: recipient and amount only in version 1 -/
+def crcProposalWithdraw (pv : Nat) : Ty :=
+  .struct ([hash256, .varBytes negativeBigLength] ++ (if pv = 1 then [hash168, u64] else [])
+    ++ [.varBytes maxSignatureScript])
+
 /-! DPoS confirm (core/types/payload/confirm.go, dposproposal.go, dposproposalvote.go) -/
 
 def dposProposal : Ty := .struct [.varBytes negativeBigLength, hash256, u32, .varBytes signatureLength]
@@ -172,10 +199,29 @@ def payloadOf : Nat → Cover
   | 0x14 => .covered nextTurnDPOSInfo
   | 0x26 => .covered crcProposalReview
   | 0x63 => .covered voting
+  | 0x03 => .covered fun _ => record
+  | 0x05 => .covered fun _ => sideChainPow
+  | 0x0a => .covered processProducer
+  | 0x0c => .covered fun _ => emptyPayload
+  | 0x0d => .covered fun _ => activateProducer
+  | 0x13 => .covered fun _ => updateVersion
+  | 0x24 => .covered fun _ => emptyPayload
+  | 0x28 => .covered fun _ => emptyPayload
+  | 0x29 => .covered crcProposalWithdraw
+  | 0x2a => .covered fun _ => hashList
+  | 0x2b => .covered fun _ => emptyPayload
+  | 0x31 => .covered fun _ => crCouncilMemberClaimNode
+  | 0x41 => .covered fun _ => revertToPOW
+  | 0x42 => .covered fun _ => revertToDPOS
+  | 0x60 => .covered returnVotes
+  | 0x61 => .covered fun _ => hashList
+  | 0x62 => .covered fun _ => emptyPayload
+  | 0x64 => .covered returnVotes
+  | 0x66 => .covered fun _ => recordSponsor
   -- the other types `GetTransaction` knows
-  | 0x01 | 0x03 | 0x05 | 0x07 | 0x08 | 0x0a | 0x0c | 0x0d | 0x0e | 0x0f | 0x11 | 0x13 | 0x15
-  | 0x21 | 0x22 | 0x23 | 0x24 | 0x25 | 0x27 | 0x28 | 0x29 | 0x2a | 0x2b | 0x31 | 0x41 | 0x42
-  | 0x51 | 0x60 | 0x61 | 0x62 | 0x64 | 0x65 | 0x66 | 0x71 | 0x72 => .uncovered
+  | 0x01 | 0x07 | 0x08 | 0x0e | 0x0f | 0x11 | 0x15
+  | 0x21 | 0x22 | 0x23 | 0x25 | 0x27
+  | 0x51 | 0x65 | 0x71 | 0x72 => .uncovered
   | _ => .invalid
 
 /-- the fields of a transaction after the type byte, without the programs:
